@@ -89,8 +89,8 @@ class SDPPacket(object):
             '<2x8B',
             FLAG_REPLY if self.reply_expected else FLAG_NO_REPLY,
             self.tag,
-            (self.dest_port & 0x7) << 5 | (self.dest_cpu & 0x1f),
-            (self.src_port & 0x7) << 5 | (self.src_cpu & 0x1f),
+            (int(self.dest_port) & 0x7) << 5 | (int(self.dest_cpu) & 0x1f),
+            (int(self.src_port) & 0x7) << 5 | (int(self.src_cpu) & 0x1f),
             self.dest_y,
             self.dest_x,
             self.src_y,
